@@ -19,12 +19,15 @@ import (
 	"fmt"
 	"sort"
 	"strings"
+	"time"
 
 	"github.com/bronlabs/bron-crypto/pkg/mpc/sharing"
 
 	"verif/harness/internal/drive"
 	"verif/harness/internal/vh"
 )
+
+var sweepSpent time.Duration
 
 type sweepSlot struct {
 	proto   *protoRun
@@ -143,7 +146,9 @@ func runWith(p *protoRun, seed int64, s *sweepSlot, altered []byte) (o sweepOutc
 		if v.Class == "panic" || strings.Contains(v.Detail, "PANIC") {
 			o.panicked = fmt.Sprintf("party %d round %d: %s", uint64(id), v.Round, v.Detail)
 		}
-		if s != nil && id != 0 && id != s.from && (s.to == 0 || s.to == id) {
+		// recipients: the addressee, or for a broadcast everybody else — including the aggregator
+		// (id 0) of a signing run, who is the one that consumes the partial signatures
+		if s != nil && id != s.from && (s.to == 0 || s.to == id) && (id != 0 || s.to == 0) {
 			recipients++
 			if v.Class != "ok" {
 				o.accepted = false
@@ -159,16 +164,27 @@ func runWith(p *protoRun, seed int64, s *sweepSlot, altered []byte) (o sweepOutc
 
 // sweepCases: honest run per protocol, then the selected damaged runs.
 func sweepCases(a vh.Args) []*tcase {
-	perProto, perHeavy := 5, 1
-	if a.Tier == "thorough" || a.Search {
-		perProto, perHeavy = 1<<30, 24
-	}
+	// quick tier: the protocols whose run takes well under a second, two or three damaged runs each (one
+	// for the slower ones); thorough: every protocol, every damage of every message layout (24 for the
+	// runs with Paillier keys, 12 for the two that take 5-16 s per run)
+	quickRuns := map[string]int{"session": 1 << 20, "aor": 1 << 20, "canetti": 2, "hjky": 2, "redistribute": 1, "lindell22": 2}
+	thorough := a.Tier == "thorough" || a.Search
+	perProto, perHeavy := 0, 24
 	var cases []*tcase
 	runs := protoRuns()
 	for pi := range runs {
 		p := &runs[pi]
-		if p.Heavy && a.Tier != "thorough" && !a.Search && perHeavy == 0 {
-			continue
+		switch {
+		case !thorough:
+			n, ok := quickRuns[p.Name]
+			if !ok {
+				continue
+			}
+			perProto = n
+		case p.Name == "dkls23-bbot" || p.Name == "otvole-rvole-bbot":
+			perProto = 12
+		default:
+			perProto = 1 << 30
 		}
 		var tr *drive.Trace
 		if pn := vh.Safely(func() { tr = p.Run(a.Seed, nil) }); pn != "" || tr == nil {
@@ -253,7 +269,9 @@ func evalSweep(a vh.Args, res *vh.Result, c *tcase, verdict, arg string, mm func
 		}
 		return
 	}
+	ts := time.Now()
 	o := runWith(s.proto, a.Seed, s, c.stream)
+	sweepSpent += time.Since(ts)
 	out := "rejected"
 	switch {
 	case o.panicked != "":
